@@ -636,6 +636,7 @@ func cmdReplay(args []string) {
 	}
 	var r replayOut
 	json.Unmarshal(so, &r)
+	fmt.Printf("replay: property %s, clause recorded %q, case: %s\n", fr.Property, fr.Clause, jsonStr(fr.Sample))
 	for _, l := range r.Trace {
 		fmt.Println(l)
 	}
